@@ -108,7 +108,7 @@ class Ctx:
         restricts the instances.  The other check runs on a scratch context that records only the mapped rules (its anchors
         are skipped: they guard its own claims); obligations, findings and samples are copied under the new names, so a
         known finding has to be listed under the new key to be suppressed here."""
-        sub = Ctx(self.prop_id, self.tier)
+        sub = Ctx(self.prop_id, "quick")  # shared rules always run at the other check's quick depth
         sub.repo, sub.src = self.repo, self.src
         sub._only_rules = set(mapping)
         sub._filter = construct_filter
